@@ -1,0 +1,43 @@
+// Verification hooks (compiled only with --cfg cteenergymodel_verif)
+
+//! Sumidero de eventos para validación de trazas: una lista global de líneas JSON con número de secuencia
+
+use std::sync::atomic::{AtomicBool, AtomicU64, Ordering};
+use std::sync::Mutex;
+
+static ENABLED: AtomicBool = AtomicBool::new(false);
+static SEQ: AtomicU64 = AtomicU64::new(0);
+static SINK: Mutex<Vec<String>> = Mutex::new(Vec::new());
+
+/// Activa o desactiva el registro de eventos
+pub fn enable(on: bool) {
+    ENABLED.store(on, Ordering::SeqCst);
+}
+
+/// ¿Está activo el registro?
+pub fn enabled() -> bool {
+    ENABLED.load(Ordering::Relaxed)
+}
+
+/// Registra un evento. `body` son los campos JSON (sin llaves). Se añaden `seq` y `thread`
+pub fn emit(body: &str) {
+    if !enabled() {
+        return;
+    }
+    let seq = SEQ.fetch_add(1, Ordering::SeqCst);
+    let line = format!(
+        "{{\"seq\":{},\"thread\":\"{:?}\",{}}}",
+        seq,
+        std::thread::current().id(),
+        body
+    );
+    // un mutex envenenado no debe impedir el registro
+    let mut sink = SINK.lock().unwrap_or_else(|e| e.into_inner());
+    sink.push(line);
+}
+
+/// Devuelve y vacía los eventos registrados
+pub fn take() -> Vec<String> {
+    let mut sink = SINK.lock().unwrap_or_else(|e| e.into_inner());
+    std::mem::take(&mut *sink)
+}
